@@ -21,7 +21,7 @@ NormSort(opts) ==
 
 \* one builder call; each returns a new query, the receiver is unchanged
 ApplyBuilder(q, b) ==
-    CASE b[1] = "where" -> [q EXCEPT !.crit = b[2]]
+    CASE b[1] = "where" -> [q EXCEPT !.crit = Desugar(b[2])]
       [] b[1] = "match" -> [q EXCEPT !.crit = <<"un", "fn", <<>>, <<"fn", b[2], b[3]>> >>]
       [] b[1] = "skip"  -> IF b[2] >= 0 THEN [q EXCEPT !.skip = b[2]] ELSE q
       [] b[1] = "limit" -> [q EXCEPT !.limit = b[2]]
